@@ -57,10 +57,11 @@ type config struct {
 	Debug, Verbose, Help, Ver bool
 	Fault                     string // "" or "<syscall>:<errno>:<k>"
 	OutForm                   string // how -out is spelled: "" (absolute), "rel", "dot", "dotdot", "slash", "sep" (-out D)
+	OutName                   string // name of the output directory inside the scratch directory ("" = OUT); given relatively
 }
 
 func (c config) String() string {
-	return fmt.Sprintf("name=%q input=%s pre=%s debug=%v verbose=%v help=%v version=%v fault=%s out=%s", c.Name, c.Input, c.Pre, c.Debug, c.Verbose, c.Help, c.Ver, c.Fault, c.OutForm)
+	return fmt.Sprintf("name=%q input=%s pre=%s debug=%v verbose=%v help=%v version=%v fault=%s out=%s%s", c.Name, c.Input, c.Pre, c.Debug, c.Verbose, c.Help, c.Ver, c.Fault, c.OutForm, c.OutName)
 }
 
 type entry struct {
@@ -110,9 +111,19 @@ func setup(dir string, c config) (args []string, pkgDir string) {
 	if name == "" {
 		name = "demo"
 	}
+	// a home directory of its own inside the scratch directory (the tool runs with HOME pointing at it), holding
+	// directories named like the output directory, so that any rewriting of -out towards it shows in the snapshot
+	_ = os.MkdirAll(filepath.Join(dir, "home", "OUT"), 0o755)
+	_ = os.MkdirAll(filepath.Join(dir, "home", "gen"), 0o755)
+	_ = os.WriteFile(filepath.Join(dir, "home", "keep.txt"), []byte("user data\n"), 0o644)
 	outDir := filepath.Join(dir, "OUT")
+	if c.OutName != "" {
+		outDir = filepath.Join(dir, c.OutName)
+	}
 	if c.Pre == "no-out-flag" {
 		outDir = dir
+	} else if c.OutName != "" {
+		args = append(args, "-out="+c.OutName)
 	} else {
 		// the same directory, spelled in the ways a path may be spelled (the tool runs with dir as working directory)
 		switch c.OutForm {
@@ -223,7 +234,7 @@ func run(bin, tmp string, id int, c config) result {
 		cmd = exec.Command(bin, args...)
 	}
 	cmd.Dir = dir
-	cmd.Env = append(os.Environ(), "NO_COLOR=1", "TERM=dumb")
+	cmd.Env = append(os.Environ(), "NO_COLOR=1", "TERM=dumb", "HOME="+filepath.Join(dir, "home"), "OUT="+filepath.Join(dir, "home", "OUT"), "gen="+filepath.Join(dir, "home", "gen"))
 	var so, se bytes.Buffer
 	cmd.Stdout, cmd.Stderr = &so, &se
 	done := make(chan error, 1)
@@ -246,6 +257,8 @@ func run(bin, tmp string, id int, c config) result {
 	res.after = snapshot(dir)
 	return res
 }
+
+var outNames = []string{"~gen", "~", "~/gen", "$HOME", "${HOME}", "$gen", "%OUT%", "%s", "%d%v", "a b", " lead", "trail ", "*", "OU?", "[OUT]", "{a,b}", "out.d", "é t é", "-dash", "--", "@OUT", "#x", "a:b", "a;b", "a&b", "a|b", "'q'", "\"q\"", "back\\slash", "OUT.", "...", "~gen/~sub"}
 
 // golden bytes of the package for a given name
 var golden = map[string]map[string]string{}
@@ -448,7 +461,7 @@ func main() {
 			os.RemoveAll(filepath.Dir(bin))
 		}
 		os.RemoveAll(tmp)
-		r.Set("rule", "configurations: name (9 names in the full product, 26 further identifier / non-identifier names (blank-only and blank-padded ones among them) in a reduced one; go/token decides what an identifier is) x input class x pre-state (and five further spellings of -out: relative, ./, with .., trailing slash, as a separate argument) of the output location x flag subsets (complete product in thorough; in quick every pair of dimensions is covered); faults: for every successful configuration an error (ENOSPC, EACCES, EIO) injected into the k-th mkdirat / openat / write / newfstatat for every k the fault-free run performs (strace inject); non-trivial = every configuration (distinct by configuration)")
+		r.Set("rule", "configurations: name (9 names in the full product, 26 further identifier / non-identifier names (blank-only and blank-padded ones among them) in a reduced one; go/token decides what an identifier is) x input class x pre-state (and five further spellings of -out: relative, ./, with .., trailing slash, as a separate argument; and 32 output directories with unusual but legal names - tilde, dollar, percent, pattern and quote characters, blanks - while HOME and same-named environment variables point at look-alike directories inside the snapshot) of the output location x flag subsets (complete product in thorough; in quick every pair of dimensions is covered); faults: for every successful configuration an error (ENOSPC, EACCES, EIO) injected into the k-th mkdirat / openat / write / newfstatat for every k the fault-free run performs (strace inject); non-trivial = every configuration (distinct by configuration)")
 		r.Set("evaluations", r.Get("runs"))
 		r.Finish()
 	}
@@ -501,6 +514,17 @@ func main() {
 						continue
 					}
 					do(config{Name: name, Input: input, Pre: pre, OutForm: form})
+				}
+			}
+		}
+	}
+	// output directories with unusual but legal names: a directory name is taken as it is written - nothing in it is
+	// expanded (home directory, environment variables, patterns, format verbs) or trimmed
+	for _, on := range outNames {
+		for _, name := range []string{"", "pk"} {
+			for _, input := range []string{"valid", "semantic", "missing"} {
+				for _, pre := range []string{"out-empty", "out-missing", "pkg-empty-dir", "pkg-dir-with-target-files"} {
+					do(config{Name: name, Input: input, Pre: pre, OutName: on})
 				}
 			}
 		}
